@@ -144,6 +144,11 @@ pub fn case(cfg: &Cfg, r: &mut Rng, res: &mut CaseResult) {
     });
     res.obs("publishes_accepted_during_stall", accepted_pubs);
     res.obs("io_batches", evs.iter().filter(|e| matches!(e, Ev::BatchStart(_))).count() as u64);
+    if let Some(t) = io_thread {
+        for shape in hooks::batch_shapes(t) {
+            res.tags.insert(format!("batch:{}", shape));
+        }
+    }
     let offered = cfg.per_publisher * cfg.publishers * fmax;
     let slack = cfg.publishers * (cfg.bound + 3) * fmax;
     // (1) invariant at the hook: above the high-water mark the channels are not listened to
